@@ -24,17 +24,18 @@ func (r *Reader) ReadMetadata() (err error) {
 		err = r.readMdat(&b)
 	case typeMeta:
 		err = r.readMeta(&b)
-		b.close()
 	case typeMoov:
 		err = r.readMoovBox(&b)
-		b.close()
 	case typeUUID:
 		err = r.readUUIDBox(&b)
 	default:
 		if logLevelInfo() {
 			logInfo().Object("box", b).Send()
 		}
-		err = b.close()
+	}
+	// whatever the handler made of the box, the reader continues at the next top-level box
+	if cerr := b.close(); err == nil {
+		err = cerr
 	}
 	if err != nil && logLevelError() {
 		logError().Object("box", b).Err(err).Send()
